@@ -546,7 +546,8 @@ impl Add<usize> for Unit {
     type Output = Unit;
 
     fn add(self, rhs: usize) -> Self::Output {
-        Unit::from(self as usize + rhs)
+        // (an index beyond the table is `Auto`, also when the sum does not fit a `usize`)
+        Unit::from((self as usize).saturating_add(rhs))
     }
 }
 
